@@ -22,7 +22,7 @@ def run_model(ctx, lines, fuel=None):
     env = dict(os.environ)
     if fuel is not None:
         env["GV_MONO_FUEL"] = str(fuel)
-    p = subprocess.run(["bash", "-c", f"ulimit -s unlimited; exec {vlib.MODEL} c07"], input="\n".join(lines) + "\n",
+    p = vlib.srun(["bash", "-c", f"ulimit -s unlimited; exec {vlib.MODEL} c07"], input="\n".join(lines) + "\n",
                        stdout=subprocess.PIPE, stderr=subprocess.PIPE, text=True, timeout=3000, env=env)
     res = {}
     for l in p.stdout.split("\n"):
